@@ -16,7 +16,7 @@ SOURCE_GUARDS = [
     ("esr/generation/simplifier.py", "get_all_dup"),
 ]
 
-TRANSLATORS = ["cancel"]
+TRANSLATORS = ["cancel", "requote"]
 TRUSTED = [
     "Coq 8.16.1 kernel + vm_compute (no native_compute)",
     "Print Assumptions: text-side theorems, loop = cancel, all_dup_spec, removes_pairs, nan, and the rational-number (Qc) composition theorem are closed "
